@@ -42,6 +42,7 @@ Inductive expr :=
 | ESetOf (a : expr)                          (* set(list): modelled as the list without repeats (first occurrences); only
                                                 membership and order-insensitive iteration may be applied to it *)
 | EIsStr (a : expr)
+| EListOf (a : expr)                         (* list(x): the elements of a string / list / dictionary, as a list *)
 | EJoin (sep : list ascii) (a : expr)        (* sep.join(list of strings) *)
 | EMod (a b : expr)
 | EFormat (template : list ascii) (args : list expr)    (* "...%s..." % (a, b, ...) with string arguments *)
@@ -103,6 +104,13 @@ Fixpoint veqb (a b : value) {struct a} : bool :=
          end) x y
   | _, _ => false
   end.
+
+(* l[i] = v with Python's index rules; None = IndexError *)
+Definition list_set {A} (l : list A) (i : Z) (v : A) : option (list A) :=
+  let n := Z.of_nat (List.length l) in
+  let j := if i <? 0 then n + i else i in
+  if (j <? 0) || (n <=? j) then None
+  else Some (firstn (Z.to_nat j) l ++ v :: skipn (S (Z.to_nat j)) l).
 
 Fixpoint vdedup (seen l : list value) : list value :=
   match l with
@@ -420,6 +428,10 @@ Fixpoint eval (e : expr) (r : env) {struct e} : value :=
                 | VExc => VExc
                 | _ => VErr
                 end
+  | EListOf a => match eval a r with
+                 | VExc => VExc
+                 | v => match elements v with Some xs => VList xs | None => VErr end
+                 end
   | EIsStr a => match eval a r with
                 | VStr _ => VBool true
                 | VExc => VExc
@@ -512,6 +524,7 @@ Fixpoint exec (s : stmt) (r : env) {struct s} : outcome :=
                       | _, VErr, _ | _, _, VErr => OErr
                       | _, VExc, _ | _, _, VExc => ORaise
                       | VDict d, kv, v => ONorm (set x (VDict (dict_set kv v d)) r)
+                      | VList l, VInt i, v => match list_set l i v with Some l' => ONorm (set x (VList l') r) | None => ORaise end
                       | _, _, _ => OErr
                       end
   | SIf c a b => match truthy (eval c r) with
